@@ -243,6 +243,23 @@ def decide(fl, ctx, D, box, tier):
     return "unresolved", val, est
 
 
+def clamp_explains(fl, ctx, D, box, tier):
+    """does the deficit disappear when the clamp of every Logit in the flow is (temporarily) moved from eps = 1e-6 to 1e-15?"""
+    from nflows.transforms.nonlinearities import Logit
+    inner = [m._transform for m in fl.modules() if isinstance(m, Logit)]
+    if not inner:
+        return False
+    old = [m.eps for m in inner]
+    try:
+        for m in inner:
+            m.eps = 1e-15
+        v = attempt(decide, fl, ctx, D, box, tier)
+    finally:
+        for m, e_ in zip(inner, old):
+            m.eps = e_
+    return v[0] == "ok" and v[1][0] == "ok"
+
+
 def search(ck, tier, seed):
     unresolved = 0
     for D in (1, 2):
@@ -295,6 +312,11 @@ def search(ck, tier, seed):
                     ck.finding("flow:logit-clamp-truncates-support",
                                "Flow([Sigmoid, Logit, LeakyReLU(0.2)], StandardNormal) integrates to %.6f: Logit clamps to [eps, 1-eps], "
                                "so the transform reaches only [-2.76, 13.8] of the base's support" % val, dict(case, row=ri))
+                elif verdict == "bad" and val < 1 and clamp_explains(fl, ctx, D, box, tier):
+                    # the recorded defect at another call site: with the clamp of every Logit in the flow moved from 1e-6 to
+                    # 1e-15 the same flow integrates to one, so the missing mass is what Logit's clamp cuts off
+                    ck.finding("flow:logit-clamp-truncates-support",
+                               "%s integrates to %.8f; with Logit's clamp at 1e-15 instead of 1e-6 it integrates to one" % (name, val), dict(case, row=ri))
                 elif verdict == "bad":
                     ck.finding("flow:density-does-not-integrate-to-one:%s" % name,
                                "D=%d context row %s: integral %.8f (resolution %.1e)" % (D, ri if ctx is not None else None, val, est), dict(case, row=ri))
@@ -306,6 +328,39 @@ def search(ck, tier, seed):
                 else:
                     ck.count("agrees with 1 to 1e-5, resolution <= 2e-6" if est <= 2e-6 else
                              "agrees with 1 within resolution <= 1e-4" if est <= 1e-4 else "agrees with 1 within coarse resolution")
+    # the same one-dimensional flows once more as a RESTORED model: evaluated once, then given another checkpoint through
+    # load_state_dict (every floating-point entry of the state dict scaled by 1 + 0.2 * noise): whatever was derived from the old
+    # values (a memoised log-abs-det, a cached matrix) must follow, or the density no longer integrates to one
+    import catalogue as _cat
+    for name, make, box, needs_ctx in programs(1, tier, seed) + library_flows(1, seed):
+        r = attempt(make)
+        if r[0] != "ok":
+            continue
+        fl = r[1]
+        g = tgen(seed, "c03restore", name)
+        ctx = torch.randn(1, 2, generator=g, dtype=torch.float64) if needs_ctx else None
+        x = torch.randn(4, 1, generator=g, dtype=torch.float64) if box is None else \
+            box[0] + (box[1] - box[0]) * (0.05 + 0.9 * torch.rand(4, 1, generator=g, dtype=torch.float64))
+        with torch.no_grad():
+            attempt(fl.log_prob, x, None if ctx is None else ctx.expand(4, -1))
+        ld = attempt(lambda: fl.load_state_dict(_cat.perturbed_state(fl, seed + 17)))
+        if ld[0] != "ok":
+            continue
+        case = {"search": "normalisation-after-load", "D": 1, "program": name, "seed": seed}
+        ck.case(("c03-restored", name), nontrivial=True)
+        ck.count("restored")
+        v = attempt(decide, fl, ctx, 1, box, tier)
+        if v[0] != "ok":
+            unresolved += 1
+            continue
+        verdict, val, est = v[1]
+        if verdict == "bad" and name.startswith("Sigmoid;Logit ; LeakyReLU(0.2) |") and val < 1:
+            continue        # the recorded Logit clamp finding, reported by the first pass
+        if verdict == "bad":
+            ck.finding("flow:density-does-not-integrate-to-one:after-load:%s" % name,
+                       "evaluated once, then loaded with another state dict: integral %.8f (resolution %.1e)" % (val, est), case)
+        elif verdict == "unresolved":
+            unresolved += 1
     return unresolved
 
 
